@@ -49,6 +49,10 @@ type scenario struct {
 	// an environment destroyed with keepTasks) or to a second live environment, created before / after the main
 	// environment (= before / after its tasks in the roster); see bystanders.go
 	groups []group
+	// optional last field `(label L)`: what the `environmentId` label of the messages about the victim names — stale (an
+	// id no environment has), none (no usable label), other (the first live bystander environment); "" = the victim's own
+	// environment (field absent); see label.go
+	label string
 }
 
 var kinds = []string{"FAILED", "LOST", "KILLED", "TERROR", "FINISHED", "EXEC", "EXEC0", "AGENT", "AGENT0", "INTERNAL"}
@@ -74,11 +78,26 @@ func parseScenario(in string) (*scenario, error) {
 	if err != nil {
 		return nil, err
 	}
-	if !n.IsList || (n.Len() != 5 && n.Len() != 6) {
-		return nil, fmt.Errorf("scenario: want 5 or 6 fields")
+	if !n.IsList || n.Len() < 5 || n.Len() > 7 {
+		return nil, fmt.Errorf("scenario: want 5 to 7 fields")
 	}
 	s := &scenario{live: n.At(0).Str(), victim: n.At(2).Int(), kind: n.At(3).Str(), instant: n.At(4).Str()}
-	if n.Len() == 6 {
+	nf := n.Len()
+	// the optional last field (label L)
+	if nf > 5 {
+		l, is, e := parseLabelField(n.At(nf - 1))
+		if e != nil {
+			return nil, e
+		}
+		if is {
+			s.label = l
+			nf--
+		}
+	}
+	if nf == 7 {
+		return nil, fmt.Errorf("scenario: the seventh field must be (label L)")
+	}
+	if nf == 6 {
 		if s.groups, err = parseGroups(n.At(5)); err != nil {
 			return nil, err
 		}
@@ -114,6 +133,9 @@ func parseScenario(in string) (*scenario, error) {
 	if isReconKind(s.kind) != isDropInstant(s.instant) {
 		return nil, fmt.Errorf("scenario: kind %q does not go with instant %q", s.kind, s.instant)
 	}
+	if !labelValid(s) {
+		return nil, fmt.Errorf("scenario: label %q does not go with kind %q / the groups", s.label, s.kind)
+	}
 	switch s.instant {
 	case "idle", "burst", "raceself", "drop", "dropabrupt":
 	case "race", "racelate":
@@ -134,6 +156,9 @@ func (s *scenario) String() string {
 	l := sx.L(sx.A(s.live), ts, sx.I(s.victim), sx.A(s.kind), sx.A(s.instant))
 	if len(s.groups) > 0 {
 		l.Add(groupsSx(s.groups))
+	}
+	if s.label != "" {
+		l.Add(sx.L(sx.A("label"), sx.A(s.label)))
 	}
 	return l.String()
 }
@@ -600,6 +625,10 @@ func runScenario(s *scenario, verbose bool) (*observation, error) {
 		}
 	}
 
+	// what the victim's executor believes the task's environment to be (label.go): from now on its messages say so
+	if err = relabelVictim(w, s, recs[s.victim].TaskID, grt); err != nil {
+		return nil, err
+	}
 	mark := len(w.Trace())
 	evMark := len(w.CoreEvents())
 	if s.instant == "burst" {
@@ -752,7 +781,26 @@ func runScenario(s *scenario, verbose bool) (*observation, error) {
 		time.Sleep(10 * time.Millisecond)
 	}
 	if last.state == "ERROR" {
-		// the watcher stops the surviving RUNNING tasks after the transition: wait for the role picture to become stable
+		// the watcher stops the surviving RUNNING tasks after the transition: wait for the role picture to become stable.
+		// Under load that STOP round trip (command, reply, the reply's `go updateTaskState`) can outlast the stability test
+		// below (seen at load ≈ 33: `(stops (2))` with role 2 still RUNNING ACTIVE): a picture that still shows a RUNNING /
+		// ACTIVE role is first given the settle window to change — a wait, never a verdict: afterwards it is observed as it is
+		_ = sim.Poll("STOP round trip of the surviving tasks", settleWindow+10*slowest, func() (bool, error) {
+			v, e := getEnv(w, id)
+			if e != nil {
+				return false, e
+			}
+			if v.gone {
+				return true, nil
+			}
+			last = v
+			for i := range s.tasks {
+				if r := v.roles[fmt.Sprintf("r%d", i)]; r[0] == "RUNNING" && r[1] == "ACTIVE" {
+					return false, nil
+				}
+			}
+			return true, nil
+		})
 		_ = sim.Poll("quiet", 1500*time.Millisecond, func() (bool, error) {
 			v, e := getEnv(w, id)
 			if e != nil {
